@@ -53,7 +53,7 @@ CONSTANTS
   Emit        \* print terminal states (generator use)
 
 VARIABLES
-  g,        \* the instance [n, ch, rep, chg, ex, v]
+  g,        \* the instance [n, ch, rep, cls, need, chg, ex, v]
   stack,    \* frames [node, x, pos, done, kids]; top = last
   cache,    \* key -> result            (_input_key_to_result / visited set)
   cexpr,    \* key -> node              (_input_key_to_expr)
@@ -197,26 +197,29 @@ Collide(n, x, p) ==
   /\ started' = TRUE
   /\ UNCHANGED <<g, stack, cache, cexpr, pool, ocl, sig, calls, kcalls, uses>>
 
-\* What the model predicts for the top frame f of a transform mapper
+\* positions of the top frame whose visit is required before it may return
+\* (all of them, unless the instance carries documented exemptions)
+Need(n) == g.need[n]
+AllDone(f) == Need(f.node) \subseteq f.done
+
+\* replace_if_different: every visited child was mapped to itself
+Same(f) == \A i \in f.done : f.kids[i] = Ch[f.node][i]
+
+\* What the model predicts for the top frame f of a transform mapper: the
+\* object the map method returns (raw), its class and signature
 NextObj == SetMax(DOMAIN ocl \cup {N}) + 1
 NextCls == SetMax(DOMAIN sig \cup {2 * MaxN}) + 1
 Predict(f) ==
   LET n    == f.node
-      same == \A i \in 1..Len(Ch[n]) : f.kids[i] = Ch[n][i]
       mode == g.chg[n]
-      raw  == IF same /\ mode = 0 THEN n ELSE NextObj
-      s    == <<IF mode = 1 THEN Rep[n] + MaxN ELSE Rep[n],
+      raw  == IF Same(f) /\ mode = 0 THEN n ELSE NextObj
+      s    == <<IF mode = 1 THEN ocl[n] + MaxN ELSE ocl[n],
                 [i \in 1..Len(Ch[n]) |-> ocl[f.kids[i]]]>>
-      cl   == IF raw = n THEN Rep[n]
+      cl   == IF raw = n THEN ocl[n]
               ELSE IF \E c \in DOMAIN sig : sig[c] = s
                    THEN CHOOSE c \in DOMAIN sig : sig[c] = s
                    ELSE NextCls
-      inpool == cl \in DOMAIN pool
-  IN [raw |-> raw, s |-> s, cl |-> cl, inpool |-> inpool, same |-> same,
-      \* _is_mapper_created_duplicate: a new object, equal to the input,
-      \* all of whose predecessors are identical to the input's
-      isdup |-> ~inpool /\ raw # n /\ cl = Rep[n] /\ same,
-      res |-> IF inpool THEN pool[cl] ELSE raw]
+  IN [raw |-> raw, s |-> s, cl |-> cl]
 
 \* the cache update common to all families
 Store(f, res) ==
@@ -225,31 +228,43 @@ Store(f, res) ==
   /\ stack' = Mark(SubSeq(stack, 1, Len(stack) - 1), f.pos, res)
   /\ uses' = uses \cup {<<KeyOf(f.node, f.x), res>>}
 
-AllDone(f) == f.done = 1..Len(Ch[f.node])
+\* TransformMapperCache.add applied to the object `raw` (of class rawcl) that
+\* the map method of the top frame returned
+InPool(rawcl) == rawcl \in DOMAIN pool
+Stored(raw, rawcl) == IF InPool(rawcl) THEN pool[rawcl] ELSE raw
+\* _is_mapper_created_duplicate: a new object, equal to the input, all of
+\* whose predecessors are identical to the input's
+IsCreatedDup(f, raw, rawcl) ==
+  ~InPool(rawcl) /\ raw # f.node /\ rawcl = ocl[f.node] /\ Same(f)
 
-ReturnTransform ==
+ReturnT(raw, rawcl, rawsig) ==
   /\ err = "none" /\ stack # <<>> /\ V.family = "transform"
   /\ AllDone(Top)
-  /\ LET f == Top pr == Predict(f) IN
-     IF V.errdup /\ pr.isdup
+  /\ LET f == Top IN
+     IF V.errdup /\ IsCreatedDup(f, raw, rawcl)
      THEN /\ err' = "dup"
           /\ UNCHANGED <<g, stack, cache, cexpr, pool, ocl, sig, calls, kcalls, uses, started>>
-     ELSE /\ Store(f, pr.res)
-          /\ pool' = IF pr.inpool THEN pool ELSE (pr.cl :> pr.raw) @@ pool
-          /\ ocl' = IF pr.inpool \/ pr.raw \in DOMAIN ocl THEN ocl ELSE (pr.raw :> pr.cl) @@ ocl
-          /\ sig' = IF pr.cl \in DOMAIN sig THEN sig ELSE (pr.cl :> pr.s) @@ sig
+     ELSE /\ Store(f, Stored(raw, rawcl))
+          /\ pool' = IF InPool(rawcl) THEN pool ELSE (rawcl :> raw) @@ pool
+          /\ ocl' = IF InPool(rawcl) \/ raw \in DOMAIN ocl THEN ocl ELSE (raw :> rawcl) @@ ocl
+          /\ sig' = IF rawcl \in DOMAIN sig THEN sig ELSE (rawcl :> rawsig) @@ sig
           /\ UNCHANGED <<g, calls, kcalls, err, started>>
+
+ReturnTransform == stack # <<>> /\ LET pr == Predict(Top) IN ReturnT(pr.raw, pr.cl, pr.s)
 
 \* combine: the result is the set of classes of the nodes below (what
 \* DependencyMapper computes); walk: no result
-ReturnOther ==
+ReturnO(res) ==
   /\ err = "none" /\ stack # <<>> /\ V.family # "transform"
   /\ AllDone(Top)
-  /\ LET f == Top
-         res == IF V.family = "walk" THEN {}
-                ELSE {Rep[f.node]} \cup UNION {f.kids[i] : i \in 1..Len(Ch[f.node])}
-     IN Store(f, res)
+  /\ Store(Top, res)
   /\ UNCHANGED <<g, pool, ocl, sig, calls, kcalls, err, started>>
+
+ReturnOther ==
+  /\ stack # <<>>
+  /\ LET f == Top
+     IN ReturnO(IF V.family = "walk" THEN {}
+                ELSE {Rep[f.node]} \cup UNION {f.kids[i] : i \in 1..Len(Ch[f.node])})
 
 \* the visit the top frame (or the user) issues next
 Undone(f) == (1..Len(Ch[f.node])) \ f.done
@@ -268,10 +283,13 @@ Next ==
   \/ ReturnOther
   \/ Terminal /\ UNCHANGED vars
 
-InitFor(n, ch, rep, chg, ex, v) ==
-  /\ g = [n |-> n, ch |-> ch, rep |-> rep, chg |-> chg, ex |-> ex, v |-> v]
+\* cls: class numbers of the input nodes (in model checking the
+\* representative itself); need: positions that must be visited
+InitFor(n, ch, rep, cls, need, chg, ex, v) ==
+  /\ g = [n |-> n, ch |-> ch, rep |-> rep, cls |-> cls, need |-> need,
+          chg |-> chg, ex |-> ex, v |-> v]
   /\ stack = <<>> /\ cache = <<>> /\ cexpr = <<>> /\ pool = <<>>
-  /\ ocl = [i \in 1..n |-> rep[i]]
+  /\ ocl = [i \in 1..n |-> cls[i]]
   /\ sig = [c \in {rep[i] : i \in 1..n} |->
               <<c, [i \in 1..Len(ch[c]) |-> rep[ch[c][i]]]>>]
   /\ calls = [i \in 1..n |-> 0]
@@ -283,7 +301,7 @@ InitFor(n, ch, rep, chg, ex, v) ==
 Init ==
   \E n \in 1..MaxN : \E ch \in CanonDags(n) : \E rep \in RepChoices(ch) :
   \E v \in Variants : \E chg \in ChgChoices(ch, rep, v) : \E ex \in ExChoices(ch, rep, v) :
-     InitFor(n, ch, rep, chg, ex, v)
+     InitFor(n, ch, rep, rep, [i \in 1..n |-> 1..Len(ch[i])], chg, ex, v)
 
 Spec == Init /\ [][Next]_vars
 
